@@ -168,8 +168,11 @@ HOOK_PROJECTS = {
     'cycle-self': ({'main.ucg': 'let a = import "./main.ucg";\n'}, 'cycle', {}),
     'cycle-3-respelled': ({'main.ucg': 'let a = import "a.ucg";\n', 'a.ucg': 'let b = import "d/b.ucg";\n', 'd/b.ucg': 'let c = import "../c.ucg";\n', 'c.ucg': 'let a = import "d/../a.ucg";\n'}, 'cycle', {}),
     'cycle-via-selector': ({'main.ucg': 'let a = (import "a.ucg").x;\n', 'a.ucg': 'let x = (import "b.ucg").y;\n', 'b.ucg': 'let y = (import "./a.ucg").x;\n'}, 'cycle', {}),
-    'cycle-in-func-body': ({'main.ucg': 'let a = import "a.ucg";\nlet r = a.f(1);\n', 'a.ucg': 'let f = func (x) => (import "b.ucg").g(x);\n',
-                            'b.ucg': 'let g = func (x) => (import "a.ucg").f(x);\n'}, 'cycle-or-ok-no-crash', {}),
+    # the import graph a <-> b is cyclic, but no file is still being imported when the other is read (the imports sit in function
+    # bodies that run after both files are complete): this is mutual recursion with a base case and must simply evaluate
+    'lazy-mutual-imports-in-func-bodies': ({'main.ucg': 'let a = import "a.ucg";\nlet r = a.f(2);\n',
+                                            'a.ucg': 'let v = TRACE %s;\nlet f = func (x) => select (x > 0, v) => {true = (import "b.ucg").g(x - 1)};\n' % SP.ph(1),
+                                            'b.ucg': 'let g = func (x) => (import "a.ucg").f(x);\n'}, 'ok', {'/cwd/a.ucg': 1}),
     'cycle-in-tuple-field': ({'main.ucg': 'let a = import "a.ucg";\n', 'a.ucg': 'let t = {b = import "b.ucg"};\n', 'b.ucg': 'let t = [import "a.ucg"];\n'}, 'cycle', {}),
     'missing-file': ({'main.ucg': 'let a = import "nosuch.ucg";\n'}, 'error', {}),
 }
